@@ -27,7 +27,7 @@ TRUSTED = ["pyexpat as the independent XML processor", "iface.py renderer and re
 
 
 def run(ctx):
-    n_ifaces = ctx.pick(150, 1200)
+    n_ifaces = ctx.pick(150, 6000)
     cases = ctx.pick(3, 5)
     reqs, metas = [], []
     for ident, I in K.family(ctx, n_ifaces, "C01"):
